@@ -35,7 +35,8 @@ type CopyParams struct {
 	DstRef      string         `json:"dst_ref,omitempty"`
 	Concurrency int            `json:"concurrency"`
 	MaxMeta     int64          `json:"max_meta,omitempty"`
-	MapRoot     string         `json:"map_root,omitempty"` // "" | child | platform:<os/arch>
+	MapRoot     string         `json:"map_root,omitempty"`  // "" | child | platform:<os/arch[/variant][@os.version]>
+	MapRoot2    string         `json:"map_root2,omitempty"` // C01: a second Copy of the same root into the same destination with this mapping
 	Callbacks   bool           `json:"callbacks,omitempty"`
 	LatencyMs   map[string]int `json:"latency_ms,omitempty"`
 	Depth       int            `json:"depth,omitempty"`
@@ -131,6 +132,9 @@ func (p *copyProp) Gen(r *Rand, tier string, idx int) any {
 	o := GraphOpts{MaxNodes: maxN, Referrers: true, SHA512: true}
 	if cp.SrcKind == "file" || cp.DstKind == "file" {
 		o.Titles = true
+	}
+	if p.id == "C01" && o.Titles && cp.SrcKind != "remote" && r.Chance(0.4) {
+		o.ManifestTitles = true // a root resolved from the source's tag then carries a file name as well
 	}
 	if p.id == "C01" && cp.DstKind == "file" && cp.SrcKind != "file" && r.Chance(0.3) {
 		o.AliasNames = true // two different blobs may claim one file name: the copy must fail, not lose one
@@ -279,17 +283,43 @@ func (p *copyProp) Gen(r *Rand, tier string, idx int) any {
 		}
 	}
 	// MapRoot (Copy only)
-	if cp.API == "Copy" && g.Nodes[cp.Root].IsManif && r.Chance(0.25) {
+	if rs := &cp.Graph.Nodes[cp.Root]; p.id == "C01" && cp.API == "Copy" && rs.Kind == "manifest" && !remote && r.Chance(0.15) {
+		// platform selection on an image manifest: its config names the platform; the
+		// manifest is its own mapped root when it matches, otherwise the copy must fail
+		cfg := &cp.Graph.Nodes[rs.Config]
+		cfg.MT, cfg.Repeat, cfg.Alg, cfg.Title = mtOCIConfig, 0, "", ""
+		cfg.Data = fmt.Sprintf(`{"architecture":"amd64","os":"linux","n":"%d"}`, rs.Config)
+		cp.MapRoot = "platform:linux/amd64"
+		if r.Chance(0.2) {
+			cp.MapRoot = "platform:linux/arm64"
+		}
+	} else if cp.API == "Copy" && g.Nodes[cp.Root].IsManif && r.Chance(0.25) {
 		rn := g.Nodes[cp.Root]
 		if k := rn.Spec.Kind; (k == "index" || k == "dlist") && len(rn.Spec.Children) > 0 {
 			if r.Bool() {
 				cp.MapRoot = "child"
 			} else {
 				cp.Graph.RichDesc = true
+				var kids []int
 				for _, c := range rn.Spec.Children {
-					if pf := g.Nodes[c].Spec.Platform; pf != "" && r.Chance(0.6) {
-						cp.MapRoot = "platform:" + pf
-						break
+					if g.Nodes[c].IsManif && (len(kids) == 0 || kids[0] != c) {
+						kids = append(kids, c)
+					}
+				}
+				if p.id == "C01" && len(kids) >= 2 && r.Chance(0.4) {
+					// two entries that differ only in os.version, selected one after the other
+					cp.Graph.Nodes[kids[0]].Platform = "windows/amd64@10.0.17763.1"
+					cp.Graph.Nodes[kids[1]].Platform = "windows/amd64@10.0.20348.2"
+					cp.MapRoot, cp.MapRoot2 = "platform:windows/amd64@10.0.17763.1", "platform:windows/amd64@10.0.20348.2"
+					if r.Bool() {
+						cp.MapRoot, cp.MapRoot2 = cp.MapRoot2, cp.MapRoot
+					}
+				} else {
+					for _, c := range rn.Spec.Children {
+						if pf := g.Nodes[c].Spec.Platform; pf != "" && r.Chance(0.6) {
+							cp.MapRoot = "platform:" + pf
+							break
+						}
 					}
 				}
 			}
@@ -488,13 +518,14 @@ func makeStore(rc *RunCtx, kind, name string) (*builtStore, error) {
 // ---------- one execution ----------
 
 type copyExec struct {
-	res      simrt.Result
-	leak     string
-	err      error
-	desc     ocispec.Descriptor
-	mon      *Monitor
-	setupErr error
-	cbTrace  []Event
+	mutatedDescs []int // nodes whose descriptor annotations were changed during the execution
+	res          simrt.Result
+	leak         string
+	err          error
+	desc         ocispec.Descriptor
+	mon          *Monitor
+	setupErr     error
+	cbTrace      []Event
 }
 
 type copyEnv struct {
@@ -506,6 +537,16 @@ type copyEnv struct {
 func platformMatch(have, want string) bool {
 	if have == "" {
 		return false
+	}
+	hv, wv := "", ""
+	if i := strings.Index(have, "@"); i >= 0 {
+		have, hv = have[:i], have[i+1:]
+	}
+	if i := strings.Index(want, "@"); i >= 0 {
+		want, wv = want[:i], want[i+1:]
+	}
+	if wv != "" && hv != wv {
+		return false // os.version is compared when the target names one
 	}
 	h, w := strings.Split(have, "/"), strings.Split(want, "/")
 	if len(h) < 2 || len(w) < 2 || h[0] != w[0] || h[1] != w[1] {
@@ -525,6 +566,20 @@ func expectedRoot(g *Graph, cp *CopyParams) (int, bool) {
 		return cp.Root, true
 	case cp.MapRoot == "child":
 		return rn.Spec.Children[0], true
+	case strings.HasPrefix(cp.MapRoot, "platform:") && rn.Spec.Kind == "manifest":
+		// an image manifest is selected (as itself) when its config's platform matches
+		var pf struct{ OS, Architecture, Variant string }
+		if json.Unmarshal(g.Nodes[rn.Spec.Config].Data, &pf) != nil {
+			return -1, false
+		}
+		have := pf.OS + "/" + pf.Architecture
+		if pf.Variant != "" {
+			have += "/" + pf.Variant
+		}
+		if platformMatch(have, strings.TrimPrefix(cp.MapRoot, "platform:")) {
+			return cp.Root, true
+		}
+		return -1, false
 	case strings.HasPrefix(cp.MapRoot, "platform:"):
 		want := strings.TrimPrefix(cp.MapRoot, "platform:")
 		for _, c := range rn.Spec.Children {
@@ -699,6 +754,11 @@ func (env *copyEnv) exec2(rc *RunCtx, faults []FaultSpec, checks func(m *Monitor
 		return ex
 	}
 	ex.res = simrt.Run(rc.NextConfig(), main)
+	if ch := env.g.Restore(); len(ch) > 0 {
+		// the code under test wrote into descriptor annotation maps it was handed; the
+		// oracle goes on with the descriptors as built
+		ex.mutatedDescs = ch
+	}
 	for _, bs := range []*builtStore{env.src, env.dst} {
 		if bs.reg != nil {
 			bs.reg.SetFaults(nil) // the oracles talk to the registries too
@@ -955,86 +1015,13 @@ func (p *copyProp) runInBubble(rc *RunCtx, sc *Scenario, cp *CopyParams, g *Grap
 
 	switch p.id {
 	case "C01", "C03":
-		ex := env.exec(rc, nil, closure, false)
-		account(ex)
-		info.Outcome = string(ex.res.Outcome)
-		if v := outcomeCheck(ex, cp.API); v != nil {
+		if v := p.judgeCopyOnce(rc, env, info, closure, before, account, outcomeCheck); v != nil || cp.MapRoot2 == "" || info.Outcome != string(simrt.OK) {
 			return v
 		}
-		if ex.mon.viol != nil {
-			return ex.mon.viol
-		}
-		lower, upper, ok := wantSets(env)
-		if !ok {
-			// no manifest matches the requested platform: the call must fail
-			if ex.err == nil {
-				return violation("wrong-success", "", "no manifest matches %s but Copy succeeded", cp.MapRoot)
-			}
-			info.Probes["platform_nomatch"]++
-			return nil
-		}
-		if ex.err != nil {
-			if errors.Is(ex.err, file.ErrDuplicateName) && titlesCollide(g) {
-				// two different blobs under one file name: the file store refuses the second
-				info.Probes["duplicate_name_refused"]++
-				info.Outcome = "legit-refusal"
-				return nil
-			}
-			return violation("unexpected-error", "", "fault-free %s failed: %v", cp.API, ex.err)
-		}
-		if v := checkComplete(env, lower, "missing-node"); v != nil {
-			return v
-		}
-		after := presentSet(env)
-		if env.src.reg != nil && env.src.reg.PagedReferrers > 0 {
-			info.Probes["src_referrers_listing_paged"]++
-			if cp.FilterAnnK != "" || cp.FilterAT != "" {
-				info.Probes["src_referrers_listing_paged_under_filter"]++
-			}
-		}
-		if upper != nil {
-			for _, i := range sortedKeys(after) {
-				if !before[i] && !upper[i] {
-					return violation("copied-too-much", "", "node %d was copied but lies outside every graph the depth/filter allows", i)
-				}
-			}
-			if len(lower) > len(g.Reach(cp.Root)) {
-				info.Nontrivial = true
-				info.Probes["ancestors_followed"]++
-			}
-			if len(upper) < len(g.Nodes) {
-				info.Probes["bound_excludes_something"]++
-			}
-		}
-		if cp.API == "Copy" || cp.API == "ExtendedCopy" {
-			want := cp.Root
-			if cp.API == "Copy" {
-				want, _ = expectedRoot(g, cp)
-			}
-			if !sameContent(ex.desc, g.Nodes[want].Desc) {
-				return violation("wrong-root", "", "%s returned %s, expected node %d %s", cp.API, ex.desc.Digest, want, g.Nodes[want].Desc.Digest)
-			}
-			ref := cp.DstRef
-			if ref == "" {
-				ref = cp.SrcRef
-			}
-			d, err := env.dst.target.Resolve(context.Background(), ref)
-			if err != nil {
-				return violation("root-not-tagged", "", "destination does not resolve %q after successful %s: %v", ref, cp.API, err)
-			}
-			if !sameContent(d, ex.desc) {
-				return violation("root-not-tagged", "", "destination resolves %q to %s, %s returned %s", ref, d.Digest, cp.API, ex.desc.Digest)
-			}
-			if before[g.Canon(want)] {
-				info.Probes["root_already_present"]++
-			}
-			if cp.MapRoot != "" {
-				info.Probes["maproot"]++
-			}
-		}
-		info.StateHash = hashJSON(sortedKeys(after))
-		probeCopy(info, ex, cp)
-		return nil
+		// the same root once more, mapped differently, into the destination as the first call left it
+		cp.MapRoot = cp.MapRoot2
+		info.Probes["second_copy_with_other_mapping"]++
+		return p.judgeCopyOnce(rc, env, info, closure, presentSet(env), account, outcomeCheck)
 
 	case "C02":
 		// phase A: fault-free on a scratch destination? No: faults are placed on the
@@ -1191,6 +1178,92 @@ func (p *copyProp) runInBubble(rc *RunCtx, sc *Scenario, cp *CopyParams, g *Grap
 		return accountingOracle(env, ex, info)
 	}
 	return nil
+}
+
+// judgeCopyOnce runs the scenario's copy call once and judges it (C01, C03).
+func (p *copyProp) judgeCopyOnce(rc *RunCtx, env *copyEnv, info *RunInfo, closure func(m *Monitor) []func(Event) *Verdict, before map[int]bool, account func(*copyExec), outcomeCheck func(*copyExec, string) *Verdict) *Verdict {
+	g, cp := env.g, env.cp
+	ex := env.exec(rc, nil, closure, false)
+	account(ex)
+	info.Outcome = string(ex.res.Outcome)
+	if v := outcomeCheck(ex, cp.API); v != nil {
+		return v
+	}
+	if ex.mon.viol != nil {
+		return ex.mon.viol
+	}
+	lower, upper, ok := wantSets(env)
+	if !ok {
+		// no manifest matches the requested platform: the call must fail
+		if ex.err == nil {
+			return violation("wrong-success", "", "no manifest matches %s but Copy succeeded", cp.MapRoot)
+		}
+		info.Probes["platform_nomatch"]++
+		return nil
+	}
+	if ex.err != nil {
+		if errors.Is(ex.err, file.ErrDuplicateName) && titlesCollide(g) {
+			// two different blobs under one file name: the file store refuses the second
+			info.Probes["duplicate_name_refused"]++
+			info.Outcome = "legit-refusal"
+			return nil
+		}
+		return violation("unexpected-error", "", "fault-free %s failed: %v", cp.API, ex.err)
+	}
+	if v := checkComplete(env, lower, "missing-node"); v != nil {
+		return v
+	}
+	after := presentSet(env)
+	if env.src.reg != nil && env.src.reg.PagedReferrers > 0 {
+		info.Probes["src_referrers_listing_paged"]++
+		if cp.FilterAnnK != "" || cp.FilterAT != "" {
+			info.Probes["src_referrers_listing_paged_under_filter"]++
+		}
+	}
+	if upper != nil {
+		for _, i := range sortedKeys(after) {
+			if !before[i] && !upper[i] {
+				return violation("copied-too-much", "", "node %d was copied but lies outside every graph the depth/filter allows", i)
+			}
+		}
+		if len(lower) > len(g.Reach(cp.Root)) {
+			info.Nontrivial = true
+			info.Probes["ancestors_followed"]++
+		}
+		if len(upper) < len(g.Nodes) {
+			info.Probes["bound_excludes_something"]++
+		}
+	}
+	if cp.API == "Copy" || cp.API == "ExtendedCopy" {
+		want := cp.Root
+		if cp.API == "Copy" {
+			want, _ = expectedRoot(g, cp)
+		}
+		if !sameContent(ex.desc, g.Nodes[want].Desc) {
+			return violation("wrong-root", "", "%s returned %s, expected node %d %s", cp.API, ex.desc.Digest, want, g.Nodes[want].Desc.Digest)
+		}
+		ref := cp.DstRef
+		if ref == "" {
+			ref = cp.SrcRef
+		}
+		d, err := env.dst.target.Resolve(context.Background(), ref)
+		if err != nil {
+			return violation("root-not-tagged", "", "destination does not resolve %q after successful %s: %v", ref, cp.API, err)
+		}
+		if !sameContent(d, ex.desc) {
+			return violation("root-not-tagged", "", "destination resolves %q to %s, %s returned %s", ref, d.Digest, cp.API, ex.desc.Digest)
+		}
+		if before[g.Canon(want)] {
+			info.Probes["root_already_present"]++
+		}
+		if cp.MapRoot != "" {
+			info.Probes["maproot"]++
+		}
+	}
+	info.StateHash = hashJSON(sortedKeys(after))
+	probeCopy(info, ex, cp)
+	return nil
+
 }
 
 func probeCopy(info *RunInfo, ex *copyExec, cp *CopyParams) {
